@@ -19,7 +19,8 @@ RULE = ("All 36 ordered pairs (l_a,l_b) in 0..5 enumerated as shards (l_a<l_b ex
         "deviation is confirmed by the 40-digit mpmath instantiation before it counts.  The nuclear-attraction matrix "
         "must equal the sum over the charge axis.  Non-trivial: a pair of different shells with |V_ab| above 1e-6 of the "
         "scale; classes record charge position and Boys-argument decade.  Sub-check extreme-ratio: per l pair one diffuse (0.02-0.06) "
-        "and one tight (cap(l)/4..cap(l)) uncontracted shell in either order at a drawn Gaussian-product prefactor 1..1e-6.")
+        "and one tight (cap(l)/4..cap(l)) uncontracted shell in either order at a drawn Gaussian-product prefactor 1..1e-6; in a third "
+        "of the cases both shells carry one two-primitive contraction with a diffuse and a tight primitive.")
 ASSUMPTIONS = ["reference integrals from vf/ref R2 (selftest: Gaussian-transform quadrature, mpmath, HORTON nuclear attraction)"]
 TOL = 1e-8
 
@@ -110,12 +111,21 @@ def extreme_st(draw, la, lb):
         u, un = [[1.0, 0.0, 0.0], [0.0, 1.0, 0.0], [0.0, 0.0, 1.0]][draw(st.integers(0, 2))], 1.0
     sb["coord"] = [r * t / un for t in u]
     sb["placed"] = "prefactor-1e-%d" % int(k)
+    wide = draw(st.integers(0, 2)) == 0
+    if wide:
+        # both shells carry ONE contraction with a diffuse and a tight primitive (either order of the primitives): the pairs
+        # (diffuse, tight) and (tight, diffuse) are then both present, whichever shell is listed first
+        for s_, hi_ in ((sa, hi_a), (sb, hi_b)):
+            t_ = hi_ if draw(st.booleans()) else draw(gen.log_uniform(hi_ / 4, hi_))
+            ex = [lo, t_] if draw(st.booleans()) else [t_, lo]
+            s_["exps"] = ex
+            s_["coeffs"] = [[draw(gen.log_uniform(0.2, 3.0))], [draw(gen.log_uniform(0.2, 3.0))]]
     shells = [sa, sb]
     pos, q, cls = draw(charges([s["coord"] for s in shells], shells))
     if draw(st.booleans()):  # the first charge sits on one of the two centres
         pos[0], cls[0] = list(shells[draw(st.integers(0, 1))]["coord"]), "on-centre"
     return {"shells": shells, "coords": pos, "charges": q, "ccls": cls, "ints": False,
-            "extreme": "diffuse-first" if diffuse_first else "tight-first"}
+            "extreme": "wide-contractions" if wide else ("diffuse-first" if diffuse_first else "tight-first")}
 
 
 def judge(case):
@@ -208,4 +218,4 @@ def shards_extreme(tier):
 SUBCHECKS = [SubCheck("pointcharge", judge, shards, strategy=lambda sh: case_st(sh["la"], sh["lb"])),
              SubCheck("extreme-ratio", judge, shards_extreme, strategy=lambda sh: extreme_st(sh["la"], sh["lb"]))]
 EXHAUSTIVE = {"l_pairs": "all 36 ordered (l_a,l_b) in 0..5"}
-EXPECTED_CLASSES = ["extreme-ratio/diffuse-first", "extreme-ratio/tight-first", "pointcharge/charge-on-centre", "pointcharge/charge-almost-on-centre", "pointcharge/charge-boys-target", "pointcharge/charge-far", "pointcharge/boysT-1e1", "pointcharge/boysT-1e4"]
+EXPECTED_CLASSES = ["extreme-ratio/diffuse-first", "extreme-ratio/tight-first", "extreme-ratio/wide-contractions", "pointcharge/charge-on-centre", "pointcharge/charge-almost-on-centre", "pointcharge/charge-boys-target", "pointcharge/charge-far", "pointcharge/boysT-1e1", "pointcharge/boysT-1e4"]
